@@ -86,6 +86,8 @@ def fault_between(run: runner.Run, seq_a: int, seq_b: int, min_echo_delay: float
             break
         if e[2] in DISRUPTIVE_TRACE_KINDS:
             return str(e[2])
+        if e[2] == 'rsp' and isinstance(e[4], int) and e[4] >= 400:
+            return f'api-{e[4]}'  # a write of ours was refused or the object is gone
         if e[2] == 'act' and e[3] in ('stall', 'revoke', 'compact', 'close-streams', 'stream-error'):
             return f'act-{e[3]}'
     return None
@@ -103,13 +105,16 @@ def final_outcome(call: runner.Call, hspec: dict[str, Any]) -> bool:
 # --------------------------------------------------------------------------------------
 # Workload generation
 # --------------------------------------------------------------------------------------
-ESSENTIAL_EDITS = ('spec', 'label', 'annotation', 'payload')
+ESSENTIAL_EDITS = ('spec', 'label', 'annotation', 'payload', 'toggle', 'toggle')
 NONESSENTIAL_EDITS = ('status', 'foreign-finalizer', 'other-kopf-annotation', 'system-annotation')
 
 
 def gen_edit(ch: Chooser, name: str, counter: int, kind: str) -> dict[str, Any]:
     if kind == 'spec':
         return {'do': 'patch', 'name': name, 'patch': {'spec': {'a': 100 + counter}}, 'essential': True}
+    if kind == 'toggle':
+        # values repeat, so an edit can revert an earlier one (also mid-cycle)
+        return {'do': 'patch', 'name': name, 'patch': {'spec': {'t': ch.choice([None, 1])}}, 'essential': True}
     if kind == 'label':
         return {'do': 'patch', 'name': name, 'patch': {'metadata': {'labels': {'tier': f't{counter}'}}}, 'essential': True}
     if kind == 'annotation':
@@ -183,7 +188,8 @@ def gen_change_plan(ch: Chooser, *, faults: bool, restarts: bool, deletes: bool 
                     nonessential: bool = True, storage: bool = True, lifecycles: bool = True,
                     max_objects: int = 3, edits: tuple[int, int] = (2, 10), late_start: bool = True,
                     errors_modes: bool = True, max_failures: int = 3, allow_perm: bool = True,
-                    horizon: Optional[float] = None, name_reuse: bool = False) -> dict[str, Any]:
+                    horizon: Optional[float] = None, name_reuse: bool = False,
+                    api_faults: bool = True) -> dict[str, Any]:
     settings = common.base_settings(ch)
     status_sub = ch.bool(0.4)
     st = common.gen_storage(ch) if storage else None
@@ -238,7 +244,7 @@ def gen_change_plan(ch: Chooser, *, faults: bool, restarts: bool, deletes: bool 
                 break
     if faults:
         for _ in range(ch.int(1, 4)):
-            kind = ch.choice(['status', 'status', 'drop-response', 'drop-request', 'event-delay'])
+            kind = ch.choice(['status', 'status', 'drop-response', 'drop-request', 'event-delay']) if api_faults else 'event-delay'
             match: dict[str, Any] = {'kind': 'widgets', 'name': ch.choice(names)}
             if kind == 'event-delay':
                 rules.append({'phase': 'event', 'match': dict(match, own_echo=True), 'nth': ch.int(1, 5),
